@@ -492,36 +492,7 @@ def d2_phi_updates(ctx: Ctx):
     ctx.check(ok, VC, f, '_ValueClassInstance._visit_while', 'the loop condition is re-read in every pass of the fixpoint', 'the condition keeps the classes of the first pass')
 
     # partial evaluation
-    _check_merge(ctx, PE, '_PartialEvalInstance._merge_branch_phis')
-    _check_fixpoint(ctx, PE, '_PartialEvalInstance._loop_fixpoint')
-    f = ctx.fn(PE, '_PartialEvalInstance._meet')
-    body = [s for s in f.body if not (isinstance(s, ast.Expr) and isinstance(s.value, ast.Constant))]
-    rows = []
-    for a, b in itertools.product((None, 'V1', 'V2', 'TOP'), repeat=2):
-        k, n = outcome(body, {'a': a, 'b': b, '_TOP': 'TOP'})
-        from .c19 import ieval
-        got = ieval(n.value, {'a': a, 'b': b, '_TOP': 'TOP'}) if k == 'return' else '?'
-        want = b if a is None else a if b is None else 'TOP' if 'TOP' in (a, b) else a if a == b else 'TOP'
-        rows.append((a, b, got, want))
-    bad = [r for r in rows if r[2] != r[3]]
-    ctx.check(not bad, PE, f, '_PartialEvalInstance._meet', 'meet: unknown is the unit, top absorbs, equal constants survive, different constants go to top (16 rows)',
-              f'{bad[:3]}: an expression would be reported constant although two different values reach it')
-    for m in ('_visit_if1', '_visit_if'):
-        f = ctx.fn(PE, f'_PartialEvalInstance.{m}')
-        calls = [call_name(k) for k in calls_in(f)]
-        ctx.check(calls and calls[-1] == 'self._merge_branch_phis', PE, f, f'_PartialEvalInstance.{m}', 'the branch phis are merged after every arm has been read', f'calls {calls}')
-    for m in ('_visit_while', '_visit_for'):
-        f = ctx.fn(PE, f'_PartialEvalInstance.{m}')
-        ks = [k for k in calls_in(f) if call_name(k) == 'self._loop_fixpoint']
-        ok = len(ks) == 1 and norm(ks[0].args[0]) == 'stmt' and 'self._visit_block(stmt.body, ctx)' in norm(ks[0].args[1])
-        ctx.check(ok, PE, f, f'_PartialEvalInstance.{m}', 'the loop body is read under the fixpoint of this statement\'s phis', f'got {[norm(k) for k in ks]}')
-    f = ctx.fn(PE, '_PartialEvalInstance._visit_assign')
-    t = norm(f, 3000)
-    ctx.check('else: self._clear_binding(stmt, stmt.target)' in t, PE, f, '_PartialEvalInstance._visit_assign',
-              'a right-hand side that is not constant clears what an earlier pass recorded for the target', 'a constant from an optimistic first pass survives after the phi went to top')
-    f = ctx.fn(PE, '_PartialEvalInstance._visit_expr')
-    ctx.check(any(norm(s) == 'self.by_expr.pop(e, None)' for s in f.body), PE, f, '_PartialEvalInstance._visit_expr',
-              'a revisited expression forgets the value of the previous pass first', 'a constant from an optimistic first pass survives')
+    d2_partial_eval(ctx)
 
     # array sizes
     for m in ('_visit_if1', '_visit_if'):
@@ -540,6 +511,74 @@ def d2_phi_updates(ctx: Ctx):
     t = norm(f, 4000)
     ctx.check('size = self._join_size(t1.size, t2.size)' in t and 'elt = self._unify(t1.elt, t2.elt)' in t, AS, f, '_ArraySizeInferInstance._unify',
               'list bounds join their sizes and, recursively, their element bounds', 'changed')
+
+
+def d2_partial_eval(ctx: Ctx):
+    """The constant-propagation part of D2 (also registered under C07: `simplify` folds what this analysis reports)."""
+    from .c19 import ieval, outcome
+    _check_merge(ctx, PE, '_PartialEvalInstance._merge_branch_phis')
+    ex, phi = _check_fixpoint(ctx, PE, '_PartialEvalInstance._loop_fixpoint')
+    # a definition the analysis has no value for is *unknown* (top), not *unvisited* (the meet's unit):
+    # both operands of every meet are read with the top default
+    for q in ('_PartialEvalInstance._merge_branch_phis', '_PartialEvalInstance._loop_fixpoint'):
+        fn = ctx.fn(PE, q)
+        exq = execute(fn, {}, {}, loop_passes=1)
+        for e in exq.calls('self._meet'):
+            for a in e.args[:2]:
+                ok = isinstance(a, tuple) and a[0] == 'call' and a[1] == 'self.by_def.get' and len(a[2]) == 2 and a[2][1] == sym('_TOP')
+                ctx.check(ok, PE, e.node, q, f'meet operand {show(a)[:90]}: a definition without a recorded value counts as unknown',
+                          'read without the top default, an unknown incoming value is the unit of the meet: `x = a; for ...: x = 1.0; return x` folds to 1.0 although '
+                          'the loop may not run')
+    f = ctx.fn(PE, '_PartialEvalInstance._meet')
+    pe_funcs = _module_functions(ctx, PE)
+    pe_meths = {n: fn_ for n, (_, _, fn_) in ctx.repo.methods(PE, '_PartialEvalInstance', inherited=False).items()}
+    rows = []
+    for a, b in itertools.product((None, 'V1', 'V2', 'TOP'), repeat=2):
+        got = Interp(pe_funcs, methods=pe_meths, globals_={'_TOP': 'TOP'}).call_function(pe_meths['_meet'], [a, b], bound_self=True)
+        want = b if a is None else a if b is None else 'TOP' if 'TOP' in (a, b) else a if a == b else 'TOP'
+        rows.append((a, b, got, want))
+    bad = [r for r in rows if r[2] != r[3]]
+    ctx.check(not bad, PE, f, '_PartialEvalInstance._meet', 'meet: unknown is the unit, top absorbs, equal constants survive, different constants go to top (16 rows)',
+              f'{bad[:3]}: an expression would be reported constant although two different values reach it')
+    # two constants are "the same" sign and all: `==` on numbers calls +0.0 and -0.0 equal
+    def zero(neg: bool) -> Obj:
+        def eq(me, other):
+            if isinstance(other, Obj) and other.kind == 'Float':
+                return True                                   # IEEE ==: the two zeros are equal
+            return other == 0
+        return Obj('Float', s=neg, eq=eq, is_zero=lambda: True, is_nar=lambda: False, isnan=False, isinf=False)
+
+    def same_value(a, b):
+        return a.fields['s'] == b.fields['s']
+    pz, nz, nz2, q0 = zero(False), zero(True), zero(True), Fraction(0)
+    funcs = _module_functions(ctx, PE)
+    meths = {n: f for n, (_, _, f) in ctx.repo.methods(PE, '_PartialEvalInstance', inherited=False).items()}
+    bad = None
+    for a, b, want_same in ((pz, nz, False), (nz, pz, False), (q0, nz, False), (nz, q0, False), (nz, nz2, True), (pz, q0, True), (q0, q0, True)):
+        it = Interp(funcs, methods=meths, globals_={'_TOP': 'TOP'}, overrides={'same_value': same_value})
+        got = it.call_function(meths['_meet'], [a, b], bound_self=True)
+        is_top = isinstance(got, str) and got == 'TOP'
+        if is_top == want_same and bad is None:
+            name = {id(pz): '+0.0', id(nz): '-0.0', id(nz2): '-0.0', id(q0): '0 (rational)'}
+            bad = f'meet({name[id(a)]}, {name[id(b)]}) = {"top" if is_top else "a constant"}'
+    ctx.check(bad is None, PE, f, '_PartialEvalInstance._meet', 'constants are compared sign and all: +0.0 and -0.0 do not merge into one constant',
+              (bad or '') + ': `if c: x = 0.0 else: x = -0.0; return x` would be folded to one of the two zeros')
+    for m in ('_visit_if1', '_visit_if'):
+        f = ctx.fn(PE, f'_PartialEvalInstance.{m}')
+        calls = [call_name(k) for k in calls_in(f)]
+        ctx.check(calls and calls[-1] == 'self._merge_branch_phis', PE, f, f'_PartialEvalInstance.{m}', 'the branch phis are merged after every arm has been read', f'calls {calls}')
+    for m in ('_visit_while', '_visit_for'):
+        f = ctx.fn(PE, f'_PartialEvalInstance.{m}')
+        ks = [k for k in calls_in(f) if call_name(k) == 'self._loop_fixpoint']
+        ok = len(ks) == 1 and norm(ks[0].args[0]) == 'stmt' and 'self._visit_block(stmt.body, ctx)' in norm(ks[0].args[1])
+        ctx.check(ok, PE, f, f'_PartialEvalInstance.{m}', 'the loop body is read under the fixpoint of this statement\'s phis', f'got {[norm(k) for k in ks]}')
+    f = ctx.fn(PE, '_PartialEvalInstance._visit_assign')
+    t = norm(f, 3000)
+    ctx.check('else: self._clear_binding(stmt, stmt.target)' in t, PE, f, '_PartialEvalInstance._visit_assign',
+              'a right-hand side that is not constant clears what an earlier pass recorded for the target', 'a constant from an optimistic first pass survives after the phi went to top')
+    f = ctx.fn(PE, '_PartialEvalInstance._visit_expr')
+    ctx.check(any(norm(s) == 'self.by_expr.pop(e, None)' for s in f.body), PE, f, '_PartialEvalInstance._visit_expr',
+              'a revisited expression forgets the value of the previous pass first', 'a constant from an optimistic first pass survives')
 
 
 def _term_of(text: str) -> Any:
@@ -1220,7 +1259,10 @@ MUTANTS = [
     Mutant('loop-stops-after-one-pass', VC, "            if all(self.by_def[phi] == prev[phi] for phi in phis):\n                return", "            if True:\n                return", 'C13.D2'),
     Mutant('else-arm-refined-as-then', VC, "        with self._refined(stmt.cond, False):\n            self._visit_block(stmt.iff, ctx)", "        with self._refined(stmt.cond, True):\n            self._visit_block(stmt.iff, ctx)", 'C13.D2'),
     Mutant('refinement-leaks', VC, "        finally:\n            self._refine = saved", "        finally:\n            pass", 'C13.D2'),
-    Mutant('meet-keeps-first-constant', PE, "        return a if a == b else _TOP", "        return a", 'C13.D2'),
+    Mutant('meet-keeps-first-constant', PE, "        return a if _same_constant(a, b) else _TOP", "        return a", 'C13.D2'),
+    Mutant('meet-plain-equality', PE, "        return a if _same_constant(a, b) else _TOP", "        return a if a == b else _TOP", 'C13.D2', 'finding F30 before its repair: +0.0 and -0.0 merge'),
+    Mutant('pe-unknown-is-the-unit', PE, "                lhs = self.by_def.get(self.def_use.defs[phi.lhs], _TOP)\n                rhs = self.by_def.get(self.def_use.defs[phi.rhs], _TOP)\n                new",
+           "                lhs = self.by_def.get(self.def_use.defs[phi.lhs])\n                rhs = self.by_def.get(self.def_use.defs[phi.rhs], _TOP)\n                new", 'C13.D2', 'seeded change C07a'),
     Mutant('pe-loop-stops-after-one-pass', PE, "            if not changed:\n                return", "            return", 'C13.D2'),
     Mutant('pe-branch-phi-one-sided', PE, "            rhs = self.by_def.get(self.def_use.defs[phi.rhs], _TOP)\n            merged", "            rhs = self.by_def.get(self.def_use.defs[phi.lhs], _TOP)\n            merged", 'C13.D2'),
     Mutant('size-loop-phi-one-sided', AS, "                self.by_def[phi] = self._unify(lhs, rhs)", "                self.by_def[phi] = rhs", 'C13.D2'),
